@@ -419,6 +419,11 @@ func candidates(p Prog) []Prog {
 				at(&q, path).Form = "plain"
 				add(q)
 			}
+			if f := formByName(a.Form); f != nil && f.Core != "" {
+				q := p.clone()
+				at(&q, path).Form = f.Core
+				add(q)
+			}
 			for _, k := range exprKinds {
 				if k == a.Cls {
 					break
@@ -499,6 +504,9 @@ func excluded(p Prog) bool {
 	}
 	for _, f := range exprForms {
 		if exclusions["form/"+f.Name] && usesForm(p.Root, f.Name) {
+			return true
+		}
+		if exclusions["form/"+f.Name+"/RT"] && usesFormKind(p.Root, f.Name, "RT") {
 			return true
 		}
 	}
@@ -700,6 +708,22 @@ func baselines(c *ev.Check) (excl []string, mask string) {
 			c.Assume(fmt.Sprintf("excluded expression form %s: with a harmless operand it already deviates (expected %s, observed %s) - an expression-evaluation matter outside this property", f.Name, exp.String(), got.String()))
 		}
 	}
+	// the runtime-error operand is a parenthesised expression; a form that does not parse with such an
+	// operand in that position (probed with the harmless `(1 % 1)`) is not in the language with that kind
+	for _, f := range exprForms {
+		if f.NoRT || f.Method {
+			continue
+		}
+		ctx := "top"
+		if f.FuncOnly {
+			ctx = "func"
+		}
+		got := observe(Prog{Ctx: ctx, Root: Act{K: "x", Cls: "RP", Form: f.Name}}, c.Seed)
+		if n := len(got.Toks); n > 0 && strings.HasPrefix(got.Toks[n-1], "end=parse") {
+			excl = append(excl, "form/"+f.Name+"/RT")
+			c.Assume(fmt.Sprintf("excluded expression form %s with the runtime-error operand: the form does not parse with a parenthesised operand there (%s) - not a program of this language", f.Name, got.Toks[n-1]))
+		}
+	}
 	// what the two Go-level triggers do outside any try (recorded, not judged)
 	for _, k := range []string{"rth", "rtp"} {
 		r := &render{sfx: sfxFor(c.Seed)}
@@ -853,6 +877,9 @@ func main() {
 			m := mod
 			if fam == "d1i" || fam == "d1e" || ((fam == "d2fin" || fam == "d1x") && quick) {
 				m = 2
+			}
+			if fam == "d1e" {
+				m = 6
 			}
 			for r := 0; r < m; r++ {
 				shards = append(shards, pool.Shard{Kind: "g1", Arg: shardArg{Fam: fam, Ctx: ctx, Mod: m, Rem: r, Quick: quick, Seed: c.Seed, Excl: excl, Mask: mask, Until: until}})
